@@ -1,6 +1,6 @@
 #!/bin/bash
-# usage: confirm.sh <ID>   -- confirms seeds a,b of worktree /tmp/wt/<ID>; writes _seed/<x>/confirm.json
-ID=$1; W=/tmp/wt/$ID; cd $W || exit 1
+# usage: confirm.sh <ID> [root]   -- confirms seeds a,b of worktree /tmp/wt/<ID>; writes _seed/<x>/confirm.json
+ID=$1; ROOT=${2:-/tmp/wt}; W=$ROOT/$ID; cd $W || exit 1
 LIB=$(find $W/_build -name "libOpenVolumeMesh*.a" | head -1)
 tests() { ctest --test-dir $W/_build -j4 --timeout 300 2>&1 | grep -E "^\s+[0-9]+ - " | grep -v "PolyhedralFileTest/\*.SaveFile" | sort | tr '\n' ';'; }
 demo() { g++ -std=c++17 -O1 -pthread -I$W/src -I$W/_build/src $1 $LIB -o $2 >/dev/null 2>&1 || { echo "BUILDFAIL"; return; }; timeout 300 $2 >/dev/null 2>&1; echo $?; }
